@@ -495,6 +495,9 @@ fn wp_explore(scripts: &[usize], steps: usize, solo: &[Vec<String>], bound: usiz
 /// with one preemption; otherwise the wp scheduler is not working on this machine and no wp result is believed.
 fn wp_canary() -> Result<Value, String> {
     use crate::wp;
+    if !wp::arena_ok() {
+        return Err("the arena's address space could not be reserved".into());
+    }
     use std::sync::atomic::AtomicU32;
     let mut lost = 0u64;
     let mut finals: std::collections::BTreeSet<u32> = std::collections::BTreeSet::new();
@@ -867,6 +870,15 @@ pub fn run(tier: Tier) -> i32 {
     let solo3 = Arc::new(solo_observations(3));
     // every configuration twice: shuttle tasks (exhaustive DFS at shuttle's scheduling points) and real OS threads
     // under the baton scheduler (all step interleavings); each in a pristine subprocess
+    // the wp scheduler needs mprotect / SIGSEGV / the x86 trap flag to behave as on stock Linux: its canary is run
+    // first; where it fails the wp passes are left out and the evidence says so (step-level schedulers still decide)
+    let wp_available = match run_config("wp-canary", &[], 1) {
+        Ok(v) if v.get("machinery").is_none() && v.get("panic").is_none() => true,
+        other => {
+            acc.notes.push(format!("wp scheduler unavailable on this machine (canary: {}); intra-call scheduling points are NOT explored in this run", match other { Ok(v) => v.to_string(), Err(e) => e }));
+            false
+        }
+    };
     let mut jobs: Vec<(&'static str, Vec<usize>, usize)> = Vec::new();
     for (sc, st) in &configs {
         jobs.push(("shuttle", sc.clone(), *st));
@@ -874,9 +886,13 @@ pub fn run(tier: Tier) -> i32 {
         if sc.len() * st <= 6 || (t && sc.len() == 2) {
             jobs.push(("baton", sc.clone(), *st));
         }
-        jobs.push(("wp", sc.clone(), *st));
+        if wp_available {
+            jobs.push(("wp", sc.clone(), *st));
+        }
     }
-    jobs.push(("wp-canary", vec![], 1));
+    if wp_available {
+        jobs.push(("wp-canary", vec![], 1));
+    }
     let nconf = jobs.len();
     let sub = par_run(&jobs, &budget, |(mode, scripts, steps), acc, _| {
         match run_config(mode, scripts, *steps) {
